@@ -10,6 +10,7 @@ import (
 
 	"github.com/openbao/openbao/sdk/v2/helper/verifx"
 	"github.com/openbao/openbao/sdk/v2/logical"
+	"github.com/openbao/openbao/v2/internal/helper/namespace"
 	"pgregory.net/rapid"
 )
 
@@ -189,6 +190,76 @@ func TestVerif_C03_CapabilitiesAPI(t *testing.T) {
 				}
 			}
 			hist = append(hist, fmt.Sprintf("query token(ns=%q,%v) in %q on %q -> %v (reference %v)", tk.ns, tk.pols, reqNS, path, reported, wantList))
+		}
+		// effective policy sets that span namespaces (a token's own policies plus identity policies of another
+		// namespace reach Store.ACL as one map namespace -> names): the merged ACL is the union of every named policy,
+		// each taken from the namespace it was named in - policy names are unique within a namespace only
+		crossNS := false
+		for q := 0; q < 1+fairIndex(rt, "storeacl", 2); q++ {
+			names := map[string][]string{}
+			var pols []c02Policy
+			var picked []string
+			for _, ns := range []string{"", "ns1/"} {
+				id := namespace.RootNamespaceID
+				if ns != "" {
+					id = w.ns1.ID
+				}
+				for _, n := range []string{"p1", "p2", "p3"} {
+					if p, ok := w.pols[ns+n]; ok && rapid.IntRange(0, 2).Draw(rt, fmt.Sprintf("storeacl-%s%s", ns, n)) > 0 {
+						if rapid.IntRange(0, 3).Draw(rt, "upper") == 0 {
+							names[id] = append(names[id], strings.ToUpper(n)) // policy names are case-insensitive
+						} else {
+							names[id] = append(names[id], n)
+						}
+						pols = append(pols, p)
+						picked = append(picked, ns+n)
+					}
+				}
+			}
+			if len(pols) == 0 {
+				continue
+			}
+			same := false
+			for _, a := range names[namespace.RootNamespaceID] {
+				for _, b := range names[w.ns1.ID] {
+					if strings.EqualFold(a, b) {
+						same = true
+					}
+				}
+			}
+			reqNS := []string{"", "ns1/"}[fairIndex(rt, "storeacl-ns", 2)]
+			path := []string{"rb/kv/x", "rb/kv/sub/z", "rb/kv/", "rb/echo/e", "rb/root/r"}[fairIndex(rt, "storeacl-path", 5)]
+			want := c02Decide(pols, reqNS+path)
+			var wantList []string
+			for c := range want {
+				wantList = append(wantList, c)
+			}
+			sort.Strings(wantList)
+			if len(wantList) == 0 {
+				wantList = []string{"deny"}
+			}
+			// the verdict must not depend on the order in which the map is walked: build the ACL several times
+			for rep := 0; rep < 6; rep++ {
+				acl, err := tc.c.policyStore.ACL(w.nsCtx(""), nil, names)
+				if err != nil {
+					t.Fatalf("harness: Store.ACL(%v): %v", names, err)
+				}
+				got := acl.Capabilities(w.nsCtx(reqNS), path)
+				sort.Strings(got)
+				if strings.Join(got, ",") != strings.Join(wantList, ",") {
+					rec.Violation(rt, "store-acl-differs-from-reference:"+map[bool]string{true: "same-name-in-two-namespaces", false: "distinct-names"}[same],
+						map[string]any{"history": hist, "policies": picked, "names": fmt.Sprint(names), "request_ns": reqNS, "path": path, "reference": wantList, "got": got},
+						"the ACL built from %v (policies %v) gives %v on %q in namespace %q; the documented semantics over the union of these policies give %v; %v", names, picked, got, path, reqNS, wantList, hist)
+				}
+			}
+			if same {
+				crossNS = true
+			}
+			hist = append(hist, fmt.Sprintf("store-acl %v in %q on %q -> %v", picked, reqNS, path, wantList))
+		}
+		if crossNS {
+			nontrivial = true
+			rec.Class("store-acl:same-name-in-two-namespaces", 1)
 		}
 		rec.Case(fmt.Sprintf("queries=%d", queries), nontrivial, verifx.Digest(hist), func() any { return map[string]any{"history": hist} })
 	})
